@@ -1444,6 +1444,23 @@ Qed.
 
 End Fib.
 
+(* the reference counts kept by the kernel service task are the Spec's replay *)
+Lemma svc_count_refines_spec : forall (reqs : list req) (a : N),
+  fst (svc_run reqs) a = ref_replay reqs a.
+Proof.
+  intros reqs a. unfold svc_run, ref_replay.
+  assert (H : forall acc n, fst acc a = n ->
+              fst (fold_left svc_step reqs acc) a = fold_left (ref_step a) reqs n).
+  { induction reqs as [|r t IH]; intros acc n Hn; cbn [fold_left]; auto.
+    apply IH. destruct r; cbn [svc_step ref_step fst]; auto.
+    - destruct (a =? a0) eqn:E; rewrite (N.eqb_sym a0 a), E; auto. apply N.eqb_eq in E. subst. auto.
+    - destruct (a =? a0) eqn:E; rewrite (N.eqb_sym a0 a), E; auto. apply N.eqb_eq in E. subst. auto. }
+  apply H. reflexivity.
+Qed.
+
+Example ex_svc : snd (svc_run [Reg 1; Reg 1; Unreg 1; Unreg 1; Reg 1; Unreg 2; Reg 2]) = [1; 1; 2].
+Proof. reflexivity. Qed.
+
 (* ================================================================ *)
 (* Witnesses: the behaviour before the fix commits (variant Legacy) violates the
    statements; replayed on the unfixed code through the harness these were the
